@@ -433,9 +433,9 @@ def text_leg(res, exe, root, r, n_cases):
         if n_bad <= 3:
           res.obligation("correspondence:parse_build-of-real-text", False, "model parse %r expected %r text %r" % (pb, exp, t))
     # the real ninja binary's view
-    view = L.ninja_view(outdir, impl[1])
-    kinj, ninj = L.injective_case(c)
     unreadable = getattr(impl[1], "unreadable", None)
+    view = L.ninja_view(outdir, [] if unreadable else impl[1])
+    kinj, ninj = L.injective_case(c)
     if "error" in view:
       if "multiple rules generate" in view["error"] and not kinj:
         pass
